@@ -160,6 +160,18 @@ pub fn check_case(case: &Case, l: &mut Local) -> Result<(), Fail> {
     if case.sub == "text" {
         return text_case(&case.input, l).map_err(|(sig, m)| Fail::new(sig, m));
     }
+    if case.sub == "depth" {
+        let e = &case.extra;
+        let gs = |k: &str| e.get(k).and_then(|x| x.as_str()).unwrap_or("").to_string();
+        let d = e.get("depth").and_then(|x| x.as_u64()).unwrap_or(10).to_string();
+        let tr = if e.get("truncated").and_then(|x| x.as_bool()).unwrap_or(false) { "1" } else { "0" };
+        l.evals += 1;
+        return match crate::worker::run_child(&["depth", &gs("shape"), &gs("style"), &gs("mode"), &d, tr], 300, 12_000_000) {
+            crate::worker::ChildResult::Ok(_) => Ok(()),
+            crate::worker::ChildResult::Violation(m) => Err(Fail::new("C20/deep-nesting", m)),
+            crate::worker::ChildResult::Inconclusive(m) => Err(Fail::new("C20/inconclusive", m)),
+        };
+    }
     if case.sub == "crash" {
         return Err(Fail::new("C20/crash", "recorded crash of the worker process (re-run the check to reproduce)"));
     }
@@ -402,6 +414,43 @@ pub fn run_inner(tier: Tier, seed: u64) -> i32 {
         }
         text_case(&s, l).map_err(|(sig, m)| (Case::new(ID, "text", &G::Empty, &s.chars().collect::<Vec<_>>()), Fail::new(sig, m)))
     });
+    // deeply nested inputs never overflow the stack: the depth workers of C12 (recursive(), declare/define and a
+    // Pratt prefix chain; 256 KiB thread stack) at one depth, balanced and truncated, parse and check
+    {
+        let depth = ctx.pick(30_000u64, 200_000u64);
+        let mut l = Local::default();
+        for (shape, style) in [("paren", "func"), ("list", "decl"), ("pratt", "func")] {
+            for mode in ["parse", "check"] {
+                for truncated in [false, true] {
+                    if ctx.stopped() {
+                        break;
+                    }
+                    l.evals += 1;
+                    let mk = || {
+                        let mut c = Case::new(ID, "depth", &G::Empty, &[]);
+                        c.extra = serde_json::json!({"shape": shape, "style": style, "mode": mode, "depth": depth, "truncated": truncated});
+                        c
+                    };
+                    match crate::worker::run_child(&["depth", shape, style, mode, &depth.to_string(), if truncated { "1" } else { "0" }], 300, 12_000_000) {
+                        crate::worker::ChildResult::Ok(_) => l.bump("deeply_nested_inputs_survived"),
+                        crate::worker::ChildResult::Violation(m) => {
+                            let r = Err((mk(), Fail::new("C20/deep-nesting", m)));
+                            ctx.judge(&mut l, r);
+                        }
+                        crate::worker::ChildResult::Inconclusive(m) => {
+                            *ctx.inconclusive.lock().unwrap() = Some(format!("depth worker: {}", m));
+                        }
+                    }
+                }
+            }
+        }
+        ctx.with_local(|acc| {
+            acc.evals += l.evals;
+            for (k, v) in &l.counters {
+                acc.add(k, *v);
+            }
+        });
+    }
     ctx.finish(&check_case, RULE, ASSUMPTIONS, &|l| {
         for k in ["failed_or_recovered_inside_a_wrapper", "multi_byte_input", "empty_input", "byte_input", "text_strings_multi_byte", "recovered", "accepted", "rejected"] {
             if l.counters.get(k).copied().unwrap_or(0) == 0 {
